@@ -26,6 +26,7 @@ import docactions
 import docmodel
 from fake_std_streams import FakeStdStreams
 import gencode
+import lookup
 import match_counter
 import objtypes
 from objtypes import strict_equal
@@ -728,6 +729,10 @@ class Engine(object):
   def get_formula_value(self, table_id, col_id, row_id, record_attributes=None):
     table = self.tables[table_id]
     col = table.get_column(col_id)
+    if isinstance(col, lookup.NoValueColumn):
+      # Lookup maps have no values; their "formula" maintains the lookup index, and running it here
+      # (e.g. for a row that doesn't exist) would add entries to the index that nothing reverts.
+      raise ValueError("Column %s.%s is a lookup helper with no formula to evaluate" % (table_id, col_id))
     checkpoint = self._get_undo_checkpoint()
     # Formulas may also schedule (or cancel) automatic removal of records, e.g. the 'group' column
     # of summary tables. That isn't a DocAction, so remember it to restore it below.
